@@ -1,4 +1,5 @@
 import GoguVerif.Theorems.C19
+import GoguVerif.Theorems.C19Handles
 open GoguVerif.Theorems.C19
 #print axioms SList.slist_init_repr
 #print axioms SList.slist_each_observes
@@ -27,3 +28,19 @@ open GoguVerif.Theorems.C19
 #print axioms Clauses.insertAfterH_fresh
 #print axioms Clauses.insertBeforeH_fresh
 #print axioms Clauses.moveIdx_follows_element
+-- kept handles on the pointer-level models (Theorems/C19Handles.lean)
+#print axioms GoguVerif.Theorems.C19H.SList.slist_find_handle
+#print axioms GoguVerif.Theorems.C19H.SList.slist_deleteH_refines
+#print axioms GoguVerif.Theorems.C19H.SList.slist_insertAfterH_refines
+#print axioms GoguVerif.Theorems.C19H.SList.slist_nil_handle_refused
+#print axioms GoguVerif.Theorems.C19H.SList.slist_step_tracks
+#print axioms GoguVerif.Theorems.C19H.SList.excluded_stale_handle_slist
+#print axioms GoguVerif.Theorems.C19H.SList.excluded_head_handle_slist
+#print axioms GoguVerif.Theorems.C19H.DList.dlist_find_handle
+#print axioms GoguVerif.Theorems.C19H.DList.dlist_nil_handle_refused
+#print axioms GoguVerif.Theorems.C19H.DList.dlist_deleteH_refines_partial
+#print axioms GoguVerif.Theorems.C19H.DList.dlist_insertAfterH_refines_partial
+#print axioms GoguVerif.Theorems.C19H.DList.dlist_insertBeforeH_refines_partial
+#print axioms GoguVerif.Theorems.C19H.moveIdx_pos
+#print axioms GoguVerif.Theorems.C19H.SList.slist_kept_handle
+#print axioms GoguVerif.Theorems.C19H.DList.excluded_stale_handle_dlist
